@@ -44,6 +44,10 @@ def check_linear_program(ctx, line, sp, events, profile, stage):
         return          # flag problems belong to C04
     try:
         adj = op.adjoint
+    except NotImplementedError:
+        # the operator does not return an adjoint (e.g. a linear Functional-class leaf): nothing is demanded
+        ctx.extra['linear_programs_without_adjoint'] = ctx.extra.get('linear_programs_without_adjoint', 0) + 1
+        return
     except Exception as ex:
         ctx.count([e, profile, sp.big], nontriv)
         ctx.violation(dict(sig0, clause='adjoint-raised', exc=type(ex).__name__), dict(detail0, exc=str(ex)[:200]))
